@@ -9,7 +9,9 @@ AREA = "c20"
 LEAN_PROPS = "Litep2pVerif.Props.C20"
 THEOREMS = ["cid_self_certifying", "malformed_dropped", "prefix_roundtrip", "batches_partition",
             "batch_size_bound_partial", "batch_size_bound", "fitting_blocks_sent_once", "batch_oversize_witness",
-            "presence_within_limit", "blocks_sent_regardless_of_presences"]
+            "presence_within_limit", "blocks_sent_regardless_of_presences",
+            "response_delivered_or_dropped_whole", "cached_failure_requeues_whole",
+            "fresh_substream_runs_queue_in_order", "queue_untouched_by_other_events"]
 CONSTS = ["MAX_MESSAGE_SIZE", "MAX_BATCH_SIZE", "MAX_BATCH_BLOCKS"]
 _CFG = "src/protocol/libp2p/bitswap/config.rs"
 CONST_TABLE = [
@@ -28,8 +30,18 @@ MANIFEST = {
             "every mix of presences and blocks send_response returns Ok, writes an optional presence message followed "
             "by exactly the messages of the block-only response, every message within MAX_MESSAGE_SIZE; an oversized "
             "presence list is skipped as a whole - the code's actual behaviour - and never prevents blocks from being "
-            "sent); plus a seeded correspondence run of the real functions (send_response over an in-memory yamux "
-            "substream with the codec of the real Config, on_message_received on a real Bitswap instance) against the "
+            "sent); the protocol level (Model/Bitswap/Proto.lean: the struct's maps outbound / pending_outbound / "
+            "pending_substreams / pending_dials / inbound, every handler of the event loop, open_substream_or_dial, "
+            "the far end of every outbound substream with a write failure at any message index): "
+            "response_delivered_or_dropped_whole (in every history each send_request/send_response call is for an action "
+            "exactly as handed over and writes the first messages of its complete sequence - a retry restarts the "
+            "response), cached_failure_requeues_whole, fresh_substream_runs_queue_in_order, "
+            "queue_untouched_by_other_events (a queued response is dropped only by dial failure, open failure, closed "
+            "connection, failed open after the dial, a failed call on the fresh substream, or when no substream can be "
+            "had); plus a seeded correspondence run of the real functions (send_response over an in-memory yamux "
+            "substream with the codec of the real Config, on_message_received on a real Bitswap instance; the real Bitswap::run() loop with its BitswapHandle and a "
+            "real TransportService, the harness playing connections, dials, substream opens/failures, inbound "
+            "messages and the far ends of the substreams) against the "
             "model and a property-level oracle that recomputes digests with hashlib.",
     "note": "Trusted: Lean kernel; axioms propext/Classical.choice/Quot.sound; the hand-written models and their tie "
             "(sampled differential runs through adapter src/verif/c20.rs); hash functions, prost, cid, multihash, "
@@ -51,16 +63,34 @@ RULE = ("seeded cases of 4-9 operations: prefix_enc/prefix_dec (boundary values,
         "MAX_MESSAGE_SIZE, that count + 1, 104000, 105000, 120000, 262144 — the two boundary counts are corpus cases of "
         "every run) run on the real code and on the Lean model; "
         "a case is non-trivial if it has a delivered and a dropped block or a response split into >= 2 messages; "
+        "every fifth case (fourth in the thorough tier) is a protocol-level dialogue on the real event loop: responses "
+        "and requests over a cached substream that fails or stalls at every message index, over a fresh one, after a "
+        "dial, with dial failures, open failures, closed connections, dead command channels, manager-view races, "
+        "queued actions behind a retry, inbound want-lists of every shape (valid v0/v1 CIDs, truncated at any offset, "
+        "trailing bytes, bad versions, want types 0..2^31-1), inbound blocks and presences, undecodable / oversized / "
+        "closed / reset inbound substreams; "
         "distinct = distinct (ops, observations) transcripts by SHA-256")
 TRUSTED_BASE = ["Lean 4.33 kernel", "axioms: propext, Classical.choice, Quot.sound only",
-                "hand-written models Model/Bitswap/{Prefix,Batch}.lean tied to bitswap/mod.rs by this correspondence run",
-                "adapter /repo/src/verif/c20.rs, harness, verif.py, checks/c20.py",
+                "hand-written models Model/Bitswap/{Prefix,Batch,Proto}.lean tied to bitswap/mod.rs by this correspondence run",
+                "adapters /repo/src/verif/c20.rs and c20_proto.rs (one hook line in Bitswap::run publishing the maps), "
+                "harness, verif.py, checks/c20.py",
+                "protocol level: tokio (paused clock), TransportService, the mpsc channels and Substream::send_framed are "
+                "run for real; the transport manager, the connections and the far ends of the substreams are played by "
+                "the adapter",
                 "hash functions are parameters of the theorems; in the correspondence run digests come from Python "
                 "hashlib (sha2, sha3, blake2b) and a pure-Python Keccak checked against hashlib's SHA-3",
                 "prost encoding modelled by its length formula only; cid/multihash/unsigned-varint/yamux as black boxes "
                 "(unsigned-varint's u64 decode/encode loops are modelled exactly)"]
-ASSUMPTIONS = ["the only write error is the codec's rejection of a frame above its limit (modelled; send_response aborts "
-               "the whole response on any write error or timeout); no timeout, the peer keeps reading",
+ASSUMPTIONS = ["batching ops: the only write error is the codec's rejection of a frame above its limit (modelled; "
+               "send_response aborts the whole response on any write error or timeout); protocol-level ops: a substream "
+               "accepts a chosen number of complete messages and then fails (at most two bytes into the next message) or "
+               "stalls until WRITE_TIMEOUT; a failure never corrupts an accepted message",
+               "protocol level: events are handled one operation at a time (run to quiescence); an inbound message is "
+               "either prost-decodable or not (inbad uses payloads that are not); want types are non-negative",
+               "oracle, protocol level: 'sent exactly once and in order' is judged per substream (a retry after a write "
+               "failure re-sends the whole response over the next substream: at-least-once on the wire, which the "
+               "property does not exclude); a response that reaches no substream completely must be explained by an "
+               "injected failure or an outstanding open / dial",
                "Code::try_from(c) followed by .code() returns c (multihash-derive)",
                "usize is 64 bits; sums of block sizes do not overflow",
                "oracle: the node's hash set is within {sha1, sha2, sha3, keccak, blake2b, blake2s, md5}; a block delivered "
@@ -516,6 +546,441 @@ def op_batches_blocks(rng, tier):
     return [f"batches {kind} {','.join(runs) if runs else '-'}"]
 
 
+# ------------------------------------------------------------------ protocol level: generator
+
+PKINDS = ["1/85/18/32", "1/85/18/32", "0/112/18/32", "1/113/45600/32", "1/18446744073709551615/18446744073709551615/64",
+          "1/85/27/32"]
+BIG = M // 2 + 1            # two of these do not share a batch: one message each
+
+
+def batches_of(sizes):
+    """Number of block messages of a response (generator only; the block-count cap is not reached here)."""
+    q = [x for x in sizes]
+    n = 0
+    while True:
+        while q and q[0] > M:
+            q.pop(0)
+        if not q:
+            return n
+        total = 0
+        k = 0
+        while k < len(q) and total + q[k] <= M:
+            total += q[k]
+            k += 1
+        del q[:k]
+        n += 1
+
+
+class Sim:
+    """Book-keeping of names (s<n>, i<k>) and liveness for the generator: which operations make sense next.
+    Not used by the oracle."""
+
+    def __init__(self):
+        self.conns, self.view, self.out, self.pend, self.psubs = {}, {}, {}, {}, {}
+        self.dials, self.opens, self.next, self.inb, self.nin, self.far = set(), {}, 0, {}, 0, {}
+        self.fill, self.idx = 0, 0
+
+    def open_sub(self, p):
+        if self.conns.get(p) is True:
+            n = self.next
+            self.next += 1
+            self.opens[n] = p
+            return n
+        return None
+
+    def open_or_dial(self, p):
+        n = self.open_sub(p)
+        if n is not None:
+            self.psubs[n] = p
+            return
+        v = self.view.get(p, "d")
+        if v == "g":
+            self.dials.add(p)
+        elif v == "d" and 1 <= p <= 3:
+            self.dials.add(p)
+            self.view[p] = "g"
+        else:
+            self.pend.pop(p, None)
+
+    def write(self, n, frames):
+        """True iff all `frames` messages are accepted by substream n."""
+        far = self.far[n]
+        if far[0] is None:
+            return True
+        if frames <= far[0]:
+            far[0] -= frames
+            return True
+        far[0] = 0
+        return False
+
+    def command(self, p, frames):
+        if p in self.out:
+            n = self.out[p]
+            if self.write(n, frames):
+                return
+            self.far[n][1] = True
+            del self.out[p]
+        q = self.pend.get(p)
+        if q:
+            q.append(frames)
+        else:
+            self.pend[p] = [frames]
+            self.open_or_dial(p)
+
+    def apply(self, op):
+        t = op.split()
+        if t[0] == "conn":
+            p = int(t[1])
+            if p not in self.conns:
+                self.conns[p] = len(t) == 2
+                self.view[p] = "c"
+                if p in self.dials:
+                    self.dials.discard(p)
+                    n = self.open_sub(p)
+                    if n is None:
+                        self.pend.pop(p, None)
+                    else:
+                        self.psubs[n] = p
+        elif t[0] == "disc":
+            p = int(t[1])
+            if p in self.conns:
+                del self.conns[p]
+                self.view[p] = "d"
+                if p in self.out:
+                    self.far[self.out.pop(p)][1] = True
+                self.pend.pop(p, None)
+                self.dials.discard(p)
+                self.psubs = {n: q for n, q in self.psubs.items() if q != p}
+                self.inb.pop(p, None)
+        elif t[0] == "conndead":
+            p = int(t[1])
+            if self.conns.get(p) is True:
+                self.conns[p] = False
+        elif t[0] == "dialfail":
+            p = int(t[1])
+            if p not in self.conns:
+                self.view[p] = "d"
+            if p in self.dials:
+                self.dials.discard(p)
+                self.pend.pop(p, None)
+        elif t[0] == "view":
+            self.view[int(t[1])] = t[2]
+        elif t[0] in ("subopen", "subfail"):
+            n = int(t[1][1:])
+            p = self.opens.pop(n, None)
+            if p is None:
+                return
+            self.psubs.pop(n, None) if t[0] == "subopen" else None
+            if t[0] == "subfail":
+                if self.psubs.pop(n, None) is not None:
+                    self.pend.pop(p, None)
+                return
+            budget = None
+            if len(t) > 2 and "=" in t[2]:
+                budget = int(t[2].split("=")[1].split(".")[0])
+            self.far[n] = [budget, False]
+            q = self.pend.pop(p, None)
+            if q is None:
+                self.far[n][1] = True
+                return
+            for frames in q:
+                if not self.write(n, frames):
+                    self.far[n][1] = True
+                    return
+            if p in self.out:
+                self.far[self.out[p]][1] = True
+            self.out[p] = n
+        elif t[0] == "plan":
+            n = int(t[1][1:])
+            if n in self.far and not self.far[n][1]:
+                self.far[n][0] = None if t[2] == "ok" else int(t[2].split("=")[1].split(".")[0])
+        elif t[0] in ("resp", "req"):
+            self.command(int(t[1]), self.frames_of(t))
+        elif t[0] == "insub":
+            p = int(t[1])
+            if p in self.conns:
+                self.inb[p] = self.nin
+                self.nin += 1
+        elif t[0] in ("inbad", "inbig", "inclose", "inreset"):
+            k = int(t[1][1:])
+            for p, v in list(self.inb.items()):
+                if v == k:
+                    del self.inb[p]
+
+    @staticmethod
+    def frames_of(t):
+        if t[0] == "req":
+            return 1
+        if t[3] == "-":
+            return 0
+        items = t[3].split(",")
+        sizes = [int(x[1:].split(".")[0]) for x in items if x[0] == "b"]
+        return (1 if any(x[0] in "hd" for x in items) else 0) + batches_of(sizes)
+
+    # ---- content with identities that are unique within the case
+    def block(self, size):
+        if size == 0:
+            return "b0.0"
+        self.fill = self.fill % 250 + 1
+        return f"b{size}.{self.fill}"
+
+    def presence(self, rng):
+        self.idx += 1
+        return f"{rng.choice('hd')}{self.idx}"
+
+
+def p_response(rng, sim, shape=None):
+    """Entries of a response. Shapes: tiny (one message), multi (presence message + two or three block
+    messages), odd (empty, only presences, oversized / empty blocks in between)."""
+    shape = shape or rng.choice(["tiny", "tiny", "multi", "multi", "multi", "odd"])
+    if shape == "tiny":
+        items = [sim.block(rng.choice([1, 5, 100, 4096])) for _ in range(rng.randrange(1, 4))]
+        if rng.random() < 0.5:
+            items.insert(rng.randrange(len(items) + 1), sim.presence(rng))
+    elif shape == "multi":
+        n = rng.choice([2, 2, 2, 3])
+        items = [sim.block(rng.choice([BIG, BIG, BIG + 7, M])) for _ in range(n)]
+        if rng.random() < 0.6:
+            items.insert(rng.randrange(len(items) + 1), sim.block(rng.choice([1, 10, 1000])))
+        if rng.random() < 0.7:
+            items.insert(rng.randrange(len(items) + 1), sim.presence(rng))
+    else:
+        r = rng.random()
+        if r < 0.2:
+            return "-"
+        if r < 0.45:
+            items = [sim.presence(rng) for _ in range(rng.randrange(1, 4))]
+        elif r < 0.75:
+            items = [sim.block(rng.choice([M + 1, 0, 3, BIG])) for _ in range(rng.randrange(1, 5))]
+        else:
+            items = [sim.block(M + 1)]
+    return ",".join(items)
+
+
+def p_wants(rng, sim):
+    if rng.random() < 0.1:
+        return "-"
+    items = []
+    for _ in range(rng.randrange(1, 5)):
+        sim.idx += 1
+        items.append(f"{rng.choice('bh')}{sim.idx}")
+    return ",".join(items)
+
+
+def cid_bytes(kind, i):
+    v, codec, mh, dlen = map(int, kind.split("/"))
+    digest = i.to_bytes(4, "little") + b"\xab" * (dlen - 4)
+    mhb = uvar(mh) + uvar(dlen) + digest
+    return mhb if v == 0 else uvar(1) + uvar(codec) + mhb
+
+
+def in_cid(rng, sim):
+    """CID bytes of a wantlist / presence entry: mostly valid, else a near miss."""
+    sim.idx += 1
+    c = cid_bytes(rng.choice(PKINDS), sim.idx)
+    r = rng.random()
+    if r < 0.6:
+        return c
+    k = rng.randrange(8)
+    if k == 0:
+        return c[:rng.randrange(len(c))]                       # truncated at any offset
+    if k == 1:
+        return c + bytes([rng.getrandbits(8)])                 # trailing byte (read_bytes ignores it)
+    if k == 2:
+        return uvar(rng.choice([0, 2, 3, 128])) + c[1:]        # explicit v0 / unknown version
+    if k == 3:
+        return b"\x81\x00" + c[1:]                             # non-minimal version varint
+    if k == 4:
+        return b"\x01\x55\x12\x41" + b"\x07" * 65              # digest of 65 bytes
+    if k == 5:
+        return b"\x12\x20" + b"\x09" * rng.choice([31, 32, 33])
+    if k == 6:
+        return b""
+    return bytes(rng.getrandbits(8) for _ in range(rng.randrange(1, 12)))
+
+
+def in_message(rng, sim):
+    """Arguments of `inmsg`: a want-list of every shape, blocks, presences."""
+    args = []
+    r = rng.random()
+    if r < 0.6:
+        n = rng.choice([1, 1, 2, 3, 5])
+        args.append("w=" + "+".join(f"{hx(in_cid(rng, sim))}/{rng.choice([0, 0, 1, 1, 2, 3, 255, 2147483647])}"
+                                    for _ in range(n)))
+    elif r < 0.7:
+        args.append("nowl")
+    if rng.random() < 0.35:
+        toks = []
+        for _ in range(rng.randrange(1, 4)):
+            p, d = block_item(rng)
+            if len(d) > 8192:
+                d = d[:4096]
+            tok, h = item_token(p, d)
+            toks.append(tok + (":" + h.hex() if h is not None else ""))
+        args.append("b=" + "+".join(toks))
+    if rng.random() < 0.3:
+        args.append("p=" + "+".join(f"{hx(in_cid(rng, sim))}/{rng.choice([0, 1, 1, 2, 77])}"
+                                    for _ in range(rng.randrange(1, 4))))
+    return " ".join(args)
+
+
+def fate(rng, frames):
+    """How a substream ends: healthy, or a write failure / stall at a message index."""
+    r = rng.random()
+    if r < 0.45:
+        return ""
+    k = rng.randrange(0, max(frames, 1) + 1)
+    if r < 0.85:
+        return f" fail={k}" + (f".{rng.choice([1, 2])}" if rng.random() < 0.3 else "")
+    return f" stall={k}"
+
+
+def gen_proto_case(rng, tier):
+    """One protocol-level dialogue on the real event loop."""
+    sim = Sim()
+    ops = ["pnew"]
+    kind = rng.choice(PKINDS)
+
+    def emit(op):
+        ops.append(op)
+        sim.apply(op)
+
+    def resp(p, shape=None):
+        emit(f"resp {p} k={kind} {p_response(rng, sim, shape)}")
+
+    family = rng.choice(["cached", "cached", "cached", "fresh", "dial", "walk", "walk", "inbound"])
+    p = rng.choice([1, 2, 3])
+    if family == "cached":
+        # a response over a cached substream that dies at message index k; the retry over a fresh one
+        emit(f"conn {p}")
+        resp(p, "tiny")
+        emit(f"subopen s0")
+        r = rng.random()
+        if r < 0.35:
+            resp(p)
+        elif r < 0.7:
+            emit(f"req {p} k={kind} {p_wants(rng, sim)}")       # over the cached substream
+        if rng.random() < 0.15:
+            # the cached substream fails under a request
+            emit(f"plan s0 fail={rng.choice([0, 0, 1])}")
+            emit(f"req {p} k={kind} {p_wants(rng, sim)}")
+            if sim.opens:
+                emit(f"subopen s{max(sim.opens)}")
+        items = p_response(rng, sim, "multi")
+        frames = Sim.frames_of(["resp", str(p), "k", items])
+        k = rng.randrange(0, frames + 1)
+        live = [n for n, f in sim.far.items() if not f[1]]
+        emit(f"plan s{live[-1] if live else 0} {rng.choice(['fail', 'fail', 'stall'])}={k}")
+        emit(f"resp {p} k={kind} {items}")
+        if rng.random() < 0.3:
+            resp(p, "tiny")                     # queued behind the retry
+        r = rng.random()
+        n = max(sim.opens) if sim.opens else 1
+        if r < 0.6:
+            emit(f"subopen s{n}")
+        elif r < 0.8:
+            emit(f"subopen s{n}{fate(rng, frames)}")
+        elif r < 0.9:
+            emit(f"subfail s{n}")
+        else:
+            emit(f"disc {p}")
+        resp(p, "tiny")
+    elif family == "fresh":
+        emit(f"conn {p}")
+        for _ in range(rng.randrange(1, 4)):
+            if rng.random() < 0.3:
+                emit(f"req {p} k={kind} {p_wants(rng, sim)}")
+            else:
+                resp(p)
+        q = sim.pend.get(p) or [1]
+        emit(f"subopen s0{fate(rng, sum(q))}")
+        resp(p)
+        if sim.opens:
+            emit(f"subopen s{max(sim.opens)}")
+    elif family == "dial":
+        p = rng.choice([1, 2, 3, 3, 4, 5])
+        if rng.random() < 0.2:
+            emit(f"view {p} {rng.choice('cgd')}")
+        resp(p, rng.choice(["tiny", "multi"]))
+        if rng.random() < 0.3:
+            emit(f"req {p} k={kind} {p_wants(rng, sim)}")
+        r = rng.random()
+        if r < 0.55:
+            emit(f"conn {p}" + (" dead" if rng.random() < 0.3 else ""))
+            if sim.opens:
+                emit(f"subopen s{max(sim.opens)}{fate(rng, 3)}")
+        elif r < 0.85:
+            emit(f"dialfail {p}")
+            resp(p, "tiny")
+            emit(f"conn {p}")
+        else:
+            emit(f"conn {p}")
+            emit(f"conndead {p}")
+            resp(p, "tiny")
+        resp(p, "tiny")
+        if sim.opens:
+            emit(f"subopen s{max(sim.opens)}")
+    elif family == "inbound":
+        emit(f"conn {p}")
+        emit(f"insub {p}")
+        for _ in range(rng.randrange(2, 7)):
+            k = max(sim.nin - 1, 0)
+            r = rng.random()
+            if r < 0.7:
+                emit(f"inmsg i{k} {in_message(rng, sim)}".rstrip())
+            elif r < 0.78:
+                emit(f"inbad i{k} {rng.choice(['ff', '0a05', '08', '1a0301', '0affffffffffffffffffff01'])}")
+            elif r < 0.84:
+                emit(f"{rng.choice(['inbig', 'inclose', 'inreset'])} i{k}")
+            elif r < 0.92:
+                q = rng.choice([p, p, 2, 3])
+                if q not in sim.conns:
+                    emit(f"conn {q}")
+                emit(f"insub {q}")
+            else:
+                emit(f"disc {p}")
+                emit(f"conn {p}")
+                emit(f"insub {p}")
+    # random walk (also the tail of every family): any operation, names taken from the book-keeping
+    steps = rng.randrange(6, 16) if family == "walk" else rng.randrange(0, 4)
+    for _ in range(steps):
+        r = rng.random()
+        p = rng.choice([1, 1, 2, 2, 3, 4])
+        if r < 0.3:
+            resp(p)
+        elif r < 0.37:
+            emit(f"req {p} k={kind} {p_wants(rng, sim)}")
+        elif r < 0.5:
+            emit(f"conn {p}" + (" dead" if rng.random() < 0.1 else ""))
+        elif r < 0.56:
+            emit(f"disc {p}")
+        elif r < 0.6:
+            emit(f"dialfail {p}")
+        elif r < 0.63:
+            emit(f"view {p} {rng.choice('cgd')}")
+        elif r < 0.65:
+            emit(f"conndead {p}")
+        elif r < 0.82:
+            n = rng.choice(sorted(sim.opens)) if sim.opens and rng.random() < 0.9 else rng.randrange(0, sim.next + 1)
+            if rng.random() < 0.85:
+                emit(f"subopen s{n}{fate(rng, 3)}")
+            else:
+                emit(f"subfail s{n}")
+        elif r < 0.9:
+            live = [n for n, f in sim.far.items() if not f[1]]
+            n = rng.choice(live) if live and rng.random() < 0.9 else rng.randrange(0, sim.next + 1)
+            emit(f"plan s{n} {(fate(rng, 3).strip() or 'ok')}")
+        elif r < 0.95:
+            if p in sim.conns:
+                emit(f"insub {p}")
+            else:
+                emit(f"conn {p}")
+        else:
+            k = rng.randrange(0, sim.nin + 1)
+            emit(f"inmsg i{k} {in_message(rng, sim)}".rstrip())
+    return ops
+
+
 def gen_case(rng, tier):
     ops = []
     for _ in range(rng.randrange(3, 7)):
@@ -546,8 +1011,13 @@ def gen_cases(rng, tier):
     n = {"quick": 700, "thorough": 25000, "search": 2500}[tier]
     if tier == "thorough":
         yield from exhaustive_vectors(4)
-    for _ in range(n):
-        yield gen_case(rng, tier)
+    # protocol-level dialogues (real event loop) interleaved with the codec / batching cases
+    every = {"quick": 5, "thorough": 4, "search": 3}[tier]
+    for i in range(n):
+        if i % every == 0:
+            yield gen_proto_case(rng, tier)
+        else:
+            yield gen_case(rng, tier)
 
 
 def corpus():
@@ -648,12 +1118,332 @@ def must_deliver(p):
     return vals[0] == 0 and vals[1] == 0x70 and vals[2] == 0x12
 
 
+# ------------------------------------------------------------------ protocol level: oracle
+
+PROTO_OPS = {"conn", "disc", "conndead", "dialfail", "view", "subopen", "subfail", "plan", "resp", "req", "insub",
+             "inmsg", "inbad", "inbig", "inclose", "inreset"}
+
+
+def parse_entries(s):
+    """`b<size>.<fill>` / `h<i>` / `d<i>` -> [("b", size, fill) | ("p", idx, type)]"""
+    out = []
+    if s == "-":
+        return out
+    for it in s.split(","):
+        if it[0] == "b":
+            a, b = it[1:].split(".")
+            out.append(("b", int(a), int(b)))
+        else:
+            out.append(("p", int(it[1:]), 0 if it[0] == "h" else 1))
+    return out
+
+
+def parse_frames(field):
+    """`s<n>=<frame>|<frame>|~k ...` -> {n: [frame]} with frame = (kind letter, encoded len, [items])."""
+    res = {}
+    if field == "-":
+        return res
+    for part in field.split(" "):
+        name, _, body = part.partition("=")
+        frames = []
+        for w in body.split("|"):
+            if w.startswith("~"):
+                continue
+            odd = ""
+            if "!" in w:
+                w, _, odd = w.partition("!")
+            if w[0] in "UE":
+                frames.append((w[0], int(w[1:]), [], odd))
+                continue
+            head, _, items = w.rpartition("/")
+            ln = int(head[1:].split("/")[0])
+            if w[0] == "B":
+                its = [tuple(map(int, x.split("."))) if "x" not in x else (int(x.split(".")[0]), -1)
+                       for x in items.split("+")]
+            elif w[0] == "P":
+                its = [tuple(map(int, x.split("."))) if x[0] != "?" else (-1, -1) for x in items.split("+")]
+            else:
+                its = []
+                for x in items.split("+"):
+                    if x[0] in "bh" and x[1:].isdigit():
+                        its.append((int(x[1:]), 0 if x[0] == "b" else 1))
+                    else:
+                        its.append((-1, -1))
+            frames.append((w[0], ln, its, odd))
+        res[int(name[1:])] = frames
+    return res
+
+
+class ProtoOracle:
+    """Judges the dialogue of one protocol instance against the property: no message above the limit; on
+    every substream the blocks of a response appear as a prefix of its fitting blocks, in order, each once,
+    starting with the first (a retry restarts the whole response); a response is not cut short on a
+    substream without an injected failure; and a response handed to the protocol reaches one substream
+    completely unless the environment failed it (dial failure, open failure, closed connection, failing
+    fresh substream, no address) or its substream / dial is still outstanding at the end."""
+
+    def __init__(self, v):
+        self.v = v
+        self.sub_peer = {}           # s<n> -> peer
+        self.outstanding = {}        # s<n> -> peer (open command not answered)
+        self.dialing = set()
+        self.connected = set()
+        self.failing = {}            # s<n> -> step at which a failure plan was set (latest)
+        self.handed = []             # dicts: step, peer, kind, blocks [(size, fill)], pres [(idx, ty)], wants
+        self.owner = {}              # ("b", size, fill) / ("p", idx) / ("w", idx) -> index into handed
+        self.wire = {}               # s<n> -> [(step, frame)]
+        self.excuse = {}             # peer -> [steps of environment failures]
+        self.sticky = set()          # peers with view / conndead interference
+        self.in_peer = {}            # i<k> -> peer
+        self.handed_subs = {}        # s<n> -> peer, substreams given to the protocol
+        self.dead_subs = set()       # ... whose connection was closed afterwards
+
+    def note_excuse(self, p, i):
+        self.excuse.setdefault(p, []).append(i)
+
+    def step(self, i, t, o):
+        f = o.split(";")
+        if len(f) != 5:
+            self.v("unexpected", f"unexpected observation {o[:80]}", i)
+            return
+        res, calls, events, writes, _state = f
+        op = t[0]
+        if op == "conn" and res == "ok":
+            self.connected.add(int(t[1]))
+            self.dialing.discard(int(t[1]))
+            if len(t) > 2:
+                self.sticky.add(int(t[1]))       # its command channel is gone: nothing can be opened
+        elif op == "disc" and res == "ok":
+            p = int(t[1])
+            self.connected.discard(p)
+            self.note_excuse(p, i)
+            self.dead_subs |= {n for n, q in self.handed_subs.items() if q == p}
+            self.outstanding = {n: q for n, q in self.outstanding.items() if q != p}
+        elif op == "dialfail":
+            self.dialing.discard(int(t[1]))
+            self.note_excuse(int(t[1]), i)
+        elif op in ("view", "conndead"):
+            self.sticky.add(int(t[1]))
+        elif op == "subfail" and res == "ok":
+            n = int(t[1][1:])
+            self.note_excuse(self.outstanding.pop(n, self.sub_peer.get(n, 0)), i)
+        elif op == "subopen" and res == "ok":
+            n = int(t[1][1:])
+            self.outstanding.pop(n, None)
+            self.handed_subs[n] = self.sub_peer.get(n, 0)
+            if len(t) > 2 and t[2] != "ok":
+                self.failing[n] = i
+                self.note_excuse(self.sub_peer.get(n, 0), i)
+        elif op == "plan" and res == "ok":
+            n = int(t[1][1:])
+            if t[2] != "ok":
+                self.failing[n] = i
+            else:
+                self.failing.pop(n, None)
+        elif op in ("resp", "req") and res == "ok":
+            p = int(t[1])
+            h = {"step": i, "peer": p, "blocks": [], "pres": [], "wants": [], "op": op,
+                 "connected": p in self.connected}
+            if op == "resp":
+                for e in parse_entries(t[3]):
+                    if e[0] == "b":
+                        if 0 < e[1] <= BATCH_LIMIT:
+                            h["blocks"].append((e[1], e[2]))
+                            self.owner.setdefault(("b", e[1], e[2]), len(self.handed))
+                    else:
+                        h["pres"].append((e[1], e[2]))
+                        self.owner.setdefault(("p", e[1]), len(self.handed))
+            elif t[3] != "-":
+                for x in t[3].split(","):
+                    h["wants"].append((int(x[1:]), 0 if x[0] == "b" else 1))
+                    self.owner.setdefault(("w", int(x[1:])), len(self.handed))
+            self.handed.append(h)
+        elif op == "insub" and res.startswith("i"):
+            self.in_peer[int(res[1:])] = int(t[1])
+        if calls != "-":
+            for c in calls.split(","):
+                w = c.split(":")
+                if w[0] == "dial":
+                    self.dialing.add(int(w[1]))
+                elif w[0] == "open":
+                    n = int(w[2][1:])
+                    self.sub_peer[n] = int(w[1])
+                    self.outstanding[n] = int(w[1])
+        for n, frames in parse_frames(writes).items():
+            if n in self.dead_subs and frames:
+                self.v("written-to-dead-substream", f"s{n} belongs to a connection that was closed before; the "
+                       f"protocol still writes to it (the message cannot arrive)", i)
+            for fr in frames:
+                self.wire.setdefault(n, []).append((i, fr))
+                self.check_frame(i, n, fr)
+
+    def check_frame(self, i, n, fr):
+        kind, ln, items, odd = fr
+        if kind == "U":
+            self.v("undecodable-message", f"a frame of {ln} bytes on s{n} is not a bitswap message", i)
+        if ln > MSG_LIMIT:
+            self.v("message-too-large", f"message of {ln} bytes on s{n} exceeds the {MSG_LIMIT} byte limit", i)
+        if "mixed" in odd:
+            self.v("mixed-message", f"a message on s{n} mixes want-list / blocks / presences", i)
+        p = self.sub_peer.get(n)
+        for it in items:
+            key = ("b", it[0], it[1]) if kind == "B" else (("p", it[0]) if kind == "P" else ("w", it[0]))
+            if kind == "B" and it[0] == 0:
+                continue
+            j = self.owner.get(key)
+            if j is None:
+                self.v("unknown-content-sent", f"s{n} carries {key} which no response / request contains", i)
+            elif self.handed[j]["peer"] != p:
+                self.v("sent-to-wrong-peer", f"{key} was handed over for peer {self.handed[j]['peer']} but written "
+                       f"to s{n} of peer {p}", i)
+
+    def finish(self, last):
+        for j, h in enumerate(self.handed):
+            want = ([("p",) + x for x in h["pres"]] if h["pres"] else []) + [("b",) + x for x in h["blocks"]]
+            want += [("w",) + x for x in h["wants"]]
+            if h["op"] == "req" and not h["wants"]:
+                continue                      # the empty request carries nothing identifiable
+            if not want:
+                continue
+            delivered = False
+            complete_on, seen_on = [], []
+            for n, frames in sorted(self.wire.items()):
+                got = []
+                for (i, (kind, ln, items, odd)) in frames:
+                    for it in items:
+                        key = ("b", it[0], it[1]) if kind == "B" else (("p", it[0]) if kind == "P" else ("w", it[0]))
+                        if self.owner.get(key) == j:
+                            got.append((kind.lower(),) + tuple(it))
+                if not got:
+                    continue
+                seen_on.append(n)
+                # attempts on one substream: each must be a prefix of the whole response, from its beginning
+                pos = 0
+                first_bad = None
+                for g in got:
+                    if pos < len(want) and g == want[pos]:
+                        pos += 1
+                    elif g == want[0] and pos > 0:
+                        pos = 1               # a second attempt on the same substream: not made by this code,
+                        first_bad = first_bad or g   # the response restarts only on a NEW substream
+                    else:
+                        first_bad = first_bad or g
+                        break
+                if first_bad is not None:
+                    self.v("blocks-not-sent-once",
+                           f"response of step {h['step']} on s{n}: entries arrive as {got[:4]}..., the response is "
+                           f"{want[:4]}... — a (re)transmission must carry the whole response in order, each block once",
+                           h["step"])
+                    delivered = True          # do not report the same response twice
+                    continue
+                if pos == len(want):
+                    delivered = True
+                    complete_on.append(n)
+                elif n not in self.failing:
+                    self.v("response-truncated", f"response of step {h['step']}: only {pos} of {len(want)} entries were "
+                           f"written to s{n}, which was never told to fail", h["step"])
+            if complete_on and len(seen_on) > len(complete_on) and min(complete_on) < max(seen_on):
+                self.v("sent-twice", f"{h['op']} of step {h['step']} was written completely to s{min(complete_on)} and "
+                       f"(partly) again to s{max(seen_on)}", h["step"])
+            if delivered:
+                continue
+            p = h["peer"]
+            excused = (p in self.sticky or any(i >= h["step"] for i in self.excuse.get(p, []))
+                       or p in self.outstanding.values() or p in self.dialing
+                       or (not h["connected"] and not (1 <= p <= 3)))
+            if not excused:
+                self.v("response-lost", f"{h['op']} of step {h['step']} to peer {p} reached no substream completely "
+                       f"although nothing failed and nothing is outstanding for that peer", h["step"])
+
+
+def check_inbound_events(v, i, t, o, peer_of):
+    """`inmsg`: the events the user got for one inbound message."""
+    f = o.split(";")
+    if len(f) != 5 or f[0] != "ok":
+        return
+    k = int(t[1][1:])
+    wl, payload, pres = None, [], []
+    for a in t[2:]:
+        if a.startswith("w="):
+            wl = [(b"" if h == "-" else bytes.fromhex(h), int(ty)) for h, ty in (x.split("/") for x in a[2:].split("+"))]
+        elif a.startswith("b="):
+            for tok in a[2:].split("+"):
+                parts = tok.split(":")
+                payload.append((b"" if parts[0] == "-" else bytes.fromhex(parts[0]), parse_data(parts[1])))
+        elif a.startswith("p="):
+            pres = [(b"" if h == "-" else bytes.fromhex(h), int(ty)) for h, ty in (x.split("/") for x in a[2:].split("+"))]
+    import re
+    events = [] if f[2] == "-" else re.split(r",(?=req:|resp:)", f[2])      # (block data may contain a comma)
+    for ev in events:
+        kind, p, body = ev.split(":", 2)
+        if peer_of.get(k) is not None and int(p) != peer_of[k]:
+            v("event-wrong-peer", f"event names peer {p}, the message came from peer {peer_of[k]}", i)
+        items = [] if body == "-" else body.split("+")
+        if not items:
+            v("empty-event", f"{kind} event without entries", i)
+        if kind == "req":
+            rest = list(wl or [])
+            for it in items:
+                ch, ty = it.split("/")
+                cb = bytes.fromhex(ch)
+                j = next((j for j, (b, t2) in enumerate(rest) if b[:len(cb)] == cb and t2 == int(ty)), None)
+                if parse_cid(cb) is None or int(ty) not in (0, 1) or j is None:
+                    v("request-not-in-wantlist", f"request entry {it} matches no want-list entry (CID bytes, type)", i)
+                    break
+                rest = rest[j + 1:]
+        else:
+            rest = list(payload)
+            prest = list(pres)
+            for it in items:
+                if it[0] == "B":
+                    cid_hex, data_s = it[1:].split(":")
+                    j = check_delivery(v, i, cid_hex, data_s, rest)
+                    if j is None:
+                        break
+                    if must_drop(rest[j][0]):
+                        v("malformed-delivered", f"block with {must_drop(rest[j][0])} was delivered", i)
+                    rest = rest[j + 1:]
+                else:
+                    ch, ty = it[1:].split("/")
+                    cb = bytes.fromhex(ch)
+                    j = next((j for j, (b, t2) in enumerate(prest) if b[:len(cb)] == cb and t2 == int(ty)), None)
+                    if parse_cid(cb) is None or int(ty) not in (0, 1) or j is None:
+                        v("presence-not-in-message", f"presence {it} matches no entry of the message", i)
+                        break
+                    prest = prest[j + 1:]
+    # well-formed entries must come through
+    got_req = sum(len(e.split(":", 2)[2].split("+")) for e in events if e.startswith("req:"))
+    need = sum(1 for b, ty in (wl or []) if ty in (0, 1) and parse_cid(b) is not None and canonical_cid(b))
+    if got_req < need:
+        v("want-lost", f"{need} well-formed want-list entries, {got_req} reported to the user", i)
+    got_pres = sum(1 for e in events if e.startswith("resp:") for it in e.split(":", 2)[2].split("+") if it[0] == "P")
+    need_p = sum(1 for b, ty in pres if ty in (0, 1) and parse_cid(b) is not None and canonical_cid(b))
+    if got_pres < need_p:
+        v("presence-lost", f"{need_p} well-formed presence entries, {got_pres} reported to the user", i)
+    got_blocks = sum(1 for e in events if e.startswith("resp:") for it in e.split(":", 2)[2].split("+") if it[0] == "B")
+    need_b = sum(1 for p, d in payload if must_deliver(p))
+    if got_blocks < need_b:
+        v("valid-block-lost", f"{need_b - got_blocks} well-formed block(s) of the message were not delivered", i)
+
+
+def canonical_cid(b):
+    c = parse_cid(b)
+    if c is None:
+        return False
+    ver, codec, code, dg = c
+    if len(dg) > 64 or codec >= 1 << 63 or code >= 1 << 63:
+        return False
+    mh = uvar(code) + uvar(len(dg)) + dg
+    return b == (mh if ver == 0 else uvar(1) + uvar(codec) + mh)
+
+
 def oracle(case, out):
     bad = []
 
     def v(kind, msg, i):
         bad.append({"kind": kind, "msg": msg, "step": i, "op": case[i], "out": out[i] if i < len(out) else None})
 
+    proto = None
     for i, op in enumerate(case):
         if i >= len(out):
             break
@@ -666,7 +1456,19 @@ def oracle(case, out):
             break
         if o == "bad-op" or not t:
             continue
-        if t[0] == "prefix_enc" and len(t) == 5:
+        if t[0] == "pnew":
+            if proto is not None:
+                proto.finish(i)
+            proto = ProtoOracle(v)
+        elif t[0] in PROTO_OPS:
+            if proto is not None:
+                try:
+                    proto.step(i, t, o)
+                    if t[0] == "inmsg":
+                        check_inbound_events(v, i, t, o, proto.in_peer)
+                except (ValueError, IndexError, KeyError) as e:  # noqa
+                    v("unexpected", f"unparseable observation {o[:80]} ({e})", i)
+        elif t[0] == "prefix_enc" and len(t) == 5:
             want = prefix_bytes(*map(int, t[1:]))
             if o != hx(want):
                 v("prefix-encoding", f"to_bytes gave {o}, four unsigned varints are {hx(want)}", i)
@@ -773,6 +1575,8 @@ def oracle(case, out):
                 v("blocks-reordered", "arrived blocks are not a subsequence of the response", i)
             if " intact=no" in o:
                 v("blocks-corrupted", "a block arrived with altered data or prefix", i)
+    if proto is not None:
+        proto.finish(len(case))
     return bad
 
 
